@@ -196,6 +196,10 @@ def run(chk, prop, theorem_files, knob_sets, n_quick, n_thorough, oracle_keys, n
             kk = Knobs(envelope=env, max_res=2, max_tasks=7, p_team=0.45, p_leave=0.6, p_tasklimits=0.3, p_limits=0.2,
                        p_dep=0.6, p_gap=0.5, p_container=0.5, sub_slot=0.6, p_alt=0.2, p_wh=0.5, dur_weeks=[2, 3])
             extra += [gen.gen_project(chk.rng, kk) for _ in range(600 if tier == "quick" else 4000)]
+            # sparse projects with nested containers, equal local ids and long horizons: room for idle time and wrong bounds
+            ks = Knobs(envelope=env, max_res=2, max_tasks=6, p_twin=0.7, p_container=0.85, p_dep=0.8, p_gap=0.4, p_limits=0.05,
+                       p_tasklimits=0.0, big_effort=0.0, dur_weeks=[3, 4])
+            extra += [gen.gen_project(chk.rng, ks) for _ in range(400 if tier == "quick" else 3000)]
         res2 = project_stream.run_projects(chk, extra, want_oracles=oracle_keys)
         chk.cov["search_stream_cases"] = len(extra)
         for r in res2:
